@@ -3,6 +3,7 @@ package arkx
 import (
 	"sort"
 	"sync"
+	"time"
 
 	"github.com/mlange-42/ark/ecs"
 )
@@ -223,14 +224,30 @@ func (x *Exec) ConcRun(goroutines, rounds int) []GenOp {
 		}(g, plan)
 	}
 	close(start)
-	wg.Wait()
+	// the goroutines finish within a fraction of a second; if they have not after a minute they are blocked for good
+	// (e.g. on the lock's mutex after a panic that left it held): the queries never finish - reported like a world
+	// that stays locked
+	finished := make(chan struct{})
+	go func() { wg.Wait(); close(finished) }()
+	stuck := false
+	select {
+	case <-finished:
+	case <-time.After(60 * time.Second):
+		stuck = true
+	}
+	mu.Lock()
+	results = append([]LogProbe{}, results...)
+	mu.Unlock()
 	sort.SliceStable(results, func(i, j int) bool { return results[i].F < results[j].F })
 	for _, lp := range results {
 		x.emit(lp)
 	}
 	end := LogProbe{K: "probe", Api: "conc-end", Visited: []Visit{}, At: []ecs.Entity{}, TwinVisited: []ecs.Entity{}, TwinAt: []ecs.Entity{},
 		Flt: LogFlt{With: []string{}, Without: []string{}, Ft: map[string]ecs.Entity{}, Qt: map[string]ecs.Entity{}}}
-	if x.w.IsLocked() {
+	if stuck {
+		end.Count = 2
+		end.Msg = "goroutines creating / iterating / closing queries did not finish within 60 s"
+	} else if x.w.IsLocked() {
 		end.Count = 1
 	}
 	x.emit(end)
